@@ -303,6 +303,11 @@ coap_resource_unknown_init2(coap_method_handler_t put_handler, int flags) {
     r->is_unknown = 1;
     /* Something unlikely to be used, but it shows up in the logs */
     r->uri_path = coap_new_str_const(coap_unknown_resource_uri, sizeof(coap_unknown_resource_uri)-1);
+    if (!r->uri_path) {
+      /* uri_path is dereferenced wherever a resource is logged or matched */
+      coap_free_type(COAP_RESOURCE, r);
+      return NULL;
+    }
     r->flags = flags & ~COAP_RESOURCE_FLAGS_RELEASE_URI;
     coap_register_handler(r, COAP_REQUEST_PUT, put_handler);
   } else {
@@ -337,6 +342,11 @@ coap_resource_proxy_uri_init2(coap_method_handler_t handler,
     r->is_proxy_uri = 1;
     /* Something unlikely to be used, but it shows up in the logs */
     r->uri_path = coap_new_str_const(coap_proxy_resource_uri, sizeof(coap_proxy_resource_uri)-1);
+    if (!r->uri_path) {
+      /* uri_path is dereferenced wherever a resource is logged or matched */
+      coap_free_type(COAP_RESOURCE, r);
+      return NULL;
+    }
     /* Preset all the handlers */
     for (i = 0; i < (sizeof(r->handler) / sizeof(r->handler[0])); i++) {
       r->handler[i] = handler;
